@@ -51,6 +51,11 @@ def _pre_items(r, plan_words, secrets, n, plan_opts=None, addrs=()):
                     o2[f] = not o2[f]
             if r.random() < 0.5:
                 o2["words"] = (list(plan_words) if plan_words and r.random() < 0.7 else ["kiwi", "zzother"])
+                if r.random() < 0.5:
+                    # ... and one more word, which for the observed run is an ordinary token of its input
+                    o2["words"] = o2["words"] + [r.choice(["via", "description", "remark", "permit", "hostname", "contact", "core"])]
+                    if r.random() < 0.7:
+                        o2["salt"] = plan_opts["salt"] if plan_opts.get("salt") is not None else o2["salt"]
             if r.random() < 0.3:
                 o2["reserved"] = [w.lower() + "-core" for w in plan_words[:2]] or None
             if not (o2["pwd"] or o2["ip"] or o2["words"] or o2["as"]):
